@@ -431,7 +431,7 @@ def layout(rng, toks, style):
                 elif k < 0.88:
                     sep = "\t "
                 elif k < 0.95:
-                    sep = " # a comment ) | } \"\n"
+                    sep = " # a comment ) | } \"\n" + rng.choice(["", "", "  ", "\t", " ", "# second comment\n    "])
                 else:
                     sep = "  "
             out.append(sep)
